@@ -355,7 +355,7 @@ func GenRetry(r *hx.Rand) Case {
 			ds.Chunks = []int{r.Range(1, 3)}
 		}
 	}
-	for i := 0; i < 24; i++ {
+	for i := 0; i < 12; i++ {
 		c.Sched = append(c.Sched, r.Intn(1<<16))
 	}
 	return c
@@ -435,7 +435,7 @@ func GenParallelHol(r *hx.Rand) Case {
 			c.Dests[d].Chunks = []int{r.Range(1, 2)}
 		}
 	}
-	for i := 0; i < 48; i++ {
+	for i := 0; i < 12; i++ { // used cyclically; short, so that the shrinker has few candidates
 		c.Sched = append(c.Sched, r.Intn(1<<13)*8+r.Intn(7)) // never the "also slow gates" choice
 	}
 	return c
